@@ -99,6 +99,8 @@ def run_rerender(ctx):
                  "2e-e\n", "1.5e\n", "3e-2e-1\n", "4e - 1\n", "x=1;2e-x;x e - 1\n", "12.5e3e\n", "1e1e1\n", "5 m2\n", "5m 2\n", "2x\n", "2 x\n", "x2\n", "ab\n", "a b\n"]
     programs += ["sq(x) =\nx^2\nsq(3)\n", "sq(x) =;x^2;sq(3)\n", "x =\n1\nx\n", "x =;1;x\n", "delete\nx\n", "f(\n1)\n", "1 +;2;", "x = 2;;x * 3\n", ";x = 5\nx\n", "x = 1\nx;;\n",
                  "clear\n;\nx\n", "[1,2\n]\n", "1 as\nkm\n", "f(a) = a;f(\n2)\n"]
+    programs += ["3!!", "x = 4\nx!!\n", "3!!!", "3! !", "(3!)!", "hh(x) = x!!\nhh(3)\n", "2^3!!", "3!!+1", "200*50%", "w = 3\nw*10%\nw+1\n", "1 +", "1 -", "1 *", "1 /", "1 ^", "1 %", "1 dot", "1 cross",
+                 "1 as", "-", "√", "5 !", "x = 3 %\nx\n", "2 %;3", "2 %\n3", "- -1", "--1", "1--1", "1 - -1", "2 ^-1", "2^ -1", "a=1;b=2;a--b", "||", "|1|2|3|", "| 1 | 2 | 3 |"]
     programs += ["2 i", "a + 2 i", "f(3 i)", "2 x", "3 pi", "2 (3)", "5 km m", "2 e", "2 e3", "2 e 3", "2 e - 3", "1.5 e2", "2 .5", "2. 5", "1 . 5", "2 in", "2 inch", "12 i n", "0 b", "0 b1",
                  "x = 2 i\nx\n", "1 2 3", "a b", "sin 0", "2 sin(0)", "10 e", "10 e-", "1 e²"]
     programs += ["1 +\n2", "x = \n", "[1, 2; 3]\n", "(1\n)", "1 2\n", "5 as\n", "# 1\n", "delete 3\n", "1e5m\n2e-3 e\n10e + 1e-x 12.5e3 1.\n",
@@ -256,7 +258,9 @@ class BodyGen:
 FIXED_BODIES = ["u dot v", "u cross v", "u • v", "u × v", "2 dot x", "a dot p cross u", "5 µm + a", "5 μm", "3 µg", "a as km", "a!", "-a!", "√a^2", "(a)",
               "|a|", "⌈a⌉", "⌊a⌋", "[a, p; 1, 2]", "gg()", "gg(a)", "gg(a, p, 1)", "a - -p", "a--p", "1e3", "2.5e-3 kg", "a^p^2", "(a+p)*u", "a+p*u",
               "a % p", "a / p / u", "[1, 2, 3] cross [a, p, 1]", "[a; p] dot [1; 2]", "gg(a)(p)", "10 °C as °F", "a as °K", "1 Kib + 2 KiB",
-              "i", "e2 + e", "a dot2", "a (p)", "[a + p, (a)!; |a|, ⌈p⌉]", "1e21 + 1e-7", "[a/2, π]", "[ϕ; a × p]", "[π, 10000; 1, ϕ]", "[5 µm, 1; 1000, √a]", "v_ dot p", "t° cross a", "[" + "w" * 70000 + ", 1]", "[1, 2; " + "w" * 65536 + ", π]", '[[[[[[[[[1, 2; 3, 4], 2; 3, 4], 2; 3, 4], 2; 3, 4], 2; 3, 4], 2; 3, 4], 2; 3, 4], 2; 3, 4], 2; 3, 4]']
+              "i", "e2 + e", "a dot2", "a (p)", "[a + p, (a)!; |a|, ⌈p⌉]", "1e21 + 1e-7", "[a/2, π]", "[ϕ; a × p]", "[π, 10000; 1, ϕ]", "[5 µm, 1; 1000, √a]", "v_ dot p", "t° cross a", "[" + ";".join(["a, 1"] * 25) + "]", "[" + ";".join(["a"] * 40) + "]", "[" + ",".join(["a"] * 30) + "]", "[" + ";".join(",".join(["p"] * 20) for _ in range(26)) + "]",
+                "2(a+1)", "3 km(a)", "2(3)^2", "2()", "2(a,1)", "(2)(a)", "2(a)(p)", "[1(a), 2(3); 4, 5]", "2.5(a) + 1", "a(2)(3)", "-2(a)", "2(a)!", "√2(a)", "1e3(a)", "5 µm(a)", "0(0)",
+                "[" + "w" * 70000 + ", 1]", "[1, 2; " + "w" * 65536 + ", π]", '[[[[[[[[[1, 2; 3, 4], 2; 3, 4], 2; 3, 4], 2; 3, 4], 2; 3, 4], 2; 3, 4], 2; 3, 4], 2; 3, 4], 2; 3, 4]']
 
 
 def listing_defs(rng, quick):
